@@ -14,7 +14,8 @@ TITLE = 'inc and exc partition a table; both keep the columns and the row order'
 STATEMENT = ('inc returns exactly the rows satisfying the condition(s) and exc exactly the others, each in original order; both '
              'carry all columns even when no row survives; inc() is the identity; inc is idempotent; find_<col> returns the '
              'unique value among the selected rows and raises if there is none or more than one')
-LEAN_FILES = ['Basic', 'TableBasic', 'Table', 'Filter', 'FilterDriver', 'TableLemmas', 'TableRect', 'TableRows', 'FilterLemmas', 'C06']
+LEAN_FILES = ['Basic', 'Cmp', 'Sort', 'TableBasic', 'Table', 'Filter', 'FilterDriver', 'TableLemmas', 'TableRect', 'TableRows',
+              'FilterLemmas', 'C06']
 RULE = ('distinct protocol lines (table, condition) on which the implementation returned a table / value; conditions matching '
         'nothing or everything are counted (they are the extremes the property names), empty tables are not')
 TRUSTED = ['correspondence harness (pv.engine, pv.proto), generators and reference predicate of pv.props.c06',
